@@ -309,6 +309,40 @@ def _undef_relation(undef, mentioned):
     return "+".join(sorted(rel))
 
 
+def _independent_bounds(plan, cfg):
+    """What can be said about an architecture's module names from the plan alone (no use of the
+    library): the dotted names that exist on disk below the root package, and the largest number
+    of name components its level limit allows."""
+    tree = ((plan.get("world") or {}).get("trees") or {}).get(cfg.get("tree"))
+    if not tree:
+        return None
+    on_disk = set()
+    for d in tree.get("dirs", []):
+        on_disk.add(d.replace("/", "."))
+    for f in tree.get("files", {}):
+        if f.endswith(".py"):
+            on_disk.add(f[:-3].replace("/", "."))
+    limit = (cfg.get("kw") or {}).get("level_limit")
+    max_comps = None
+    if limit is not None:
+        extra = 0 if cfg["module"] == cfg["root"] else len(cfg["module"].split("/")) - 1
+        max_comps = limit + extra + 1
+    return {"root": cfg["root"], "on_disk": on_disk, "max_comps": max_comps}
+
+
+def _surely_undefined(kind, name, bounds):
+    if not bounds or kind not in ("are_named", "are_sub_modules_of"):
+        return None
+    root = bounds["root"]
+    if not (name == root or name.startswith(root + ".")):
+        return None
+    if name not in bounds["on_disk"]:
+        return "not-on-disk"
+    if bounds["max_comps"] is not None and len(name.split(".")) > bounds["max_comps"]:
+        return "below-level-limit"
+    return None
+
+
 def judge_c13(plan, result):
     """K1: a chain the specification automaton classifies bad / incomplete / contradictory /
     undefined never ends in a verdict (normal return or AssertionError).  The automaton is
@@ -319,13 +353,14 @@ def judge_c13(plan, result):
     st = {"calls": 0, "applies": 0, "judged_must_error": 0, "errored_as_required": 0,
           "classes": {}, "reasons": {}, "outcomes": {"PASS": 0, "FAIL": 0, "NOVERDICT": 0},
           "entry_requests": 0, "entry_must_reject": 0, "transitions": {}, "dead_before_apply": 0,
-          "error_classes": {}, "undefined_kinds": {}}
+          "error_classes": {}, "undefined_kinds": {}, "independent_undefined": {}}
     archdefs = {}  # obj -> LayerDefModel of an accepted, finished definition
     arch_layers = {}  # obj -> [(layer, content)] view used by LayerRuleSpec
     spec = {}  # obj -> automaton
     fam = {}
     dead = {}  # obj -> how its chain ended early
     ev_modules = {}
+    ev_indep = {}
     for ev in result["log"]:
         op, res = ev["op"], ev["res"]
         kind = op["op"]
@@ -337,6 +372,7 @@ def judge_c13(plan, result):
             reason = models.entry_point_bad(cfg.get("kw", {}), below)
             if res["r"] == "ok":
                 ev_modules[op["ev"]] = result["snaps"][res["snap"]]["modules"]
+                ev_indep[op["ev"]] = _independent_bounds(plan, cfg)
             if reason:
                 st["entry_must_reject"] += 1
                 _bump(st["reasons"], "entry:" + reason)
@@ -418,6 +454,15 @@ def judge_c13(plan, result):
             mods = ev_modules.get(op["ev"])
             if mods is not None:
                 undef = models.filters_undefined(sp.mentioned(), mods)
+                # names the architecture cannot define whatever its own module list says: not on
+                # disk at all, or deeper than the level limit it was built with
+                for k_, v_ in sp.mentioned():
+                    why_ = _surely_undefined(k_, v_, ev_indep.get(op["ev"]))
+                    if why_:
+                        _bump(st["independent_undefined"], why_)
+                        if (k_, v_) not in undef:
+                            undef.append((k_, v_))
+                            _bump(st["independent_undefined"], why_ + "/although-listed-by-the-architecture")
                 if undef:
                     klass = models.UNDEFINED
                     kinds = sorted({k for k, _ in undef})
